@@ -1726,9 +1726,9 @@ func c20(c *Ctx) {
 	}
 	c.Op("prectable", c20PrecTable())
 
-	nShell := 300
+	nShell := 200
 	if c.Thorough() {
-		nShell = 30000 / max(1, c.Shards)
+		nShell = 16000 / max(1, c.Shards)
 	}
 	if c.N == 0 {
 		nShell = 0
